@@ -117,6 +117,20 @@ def check_roundtrip(h, rep, where):
                               bucket="C09:state-readable")
     check_host_decoders(h, env.current_state, t, where + " state")
     check_host_decoders(h, s2, t, where + " State.from_numpy")
+    # a state that went through pickle still reads by the documented layout (if states can be pickled at all); when a
+    # sibling environment exists (same names in the opposite order) one of ITS states goes through pickle first
+    import pickle
+    try:
+        if getattr(h, "sibling", None) is not None:
+            pickle.loads(pickle.dumps(h.sibling.current_state))
+        s3 = pickle.loads(pickle.dumps(env.current_state))
+    except Exception:
+        s3 = None
+    if s3 is not None:
+        if not np.array_equal(s3.tensor, t):
+            raise Failure("C09:state-pickle", f"{where}: a pickled state does not reproduce the tensor")
+        check_host_decoders(h, s3, t, where + " pickled state")
+        rep.count("pickled-state-decoded")
     o = env.last_obs.tensor
     oflat = np.array(o, copy=True).flatten()
     o2 = Observation.from_numpy(oflat, shape)
@@ -181,8 +195,10 @@ def run_case(case, rep, record=True):
     nops = 0
     try:
         fully = bool(case["modes"].get("fully_obs"))
-        h = walk.build_harness(case["source"], dict(fully_obs=fully, flat_obs=True))
+        h = walk.build_harness(case["source"], dict(fully_obs=fully, flat_obs=True),
+                               foreign="sibling" if case.get("foreign") == "sibling" else None)
         h2 = walk.Harness(h.spec, h.scn, dict(fully_obs=fully, flat_obs=False))
+        h2.sibling = getattr(h, "sibling", None)
         # h2 was constructed last: the shared HostVector layout is that of this scenario
         if record:
             rep.evaluated()
@@ -196,7 +212,7 @@ def run_case(case, rep, record=True):
         if record:
             rep.count("custom-bounds" if custom else "default-bounds")
         check_roundtrip(h2, rep, "initial")
-        if case.get("foreign"):
+        if case.get("foreign") and case["foreign"] != "sibling":
             import nasim
             foreign = sources.make_env(nasim.load_scenario(sources.shipped_path(case["foreign"])))
         o1, _ = h.env.reset()
